@@ -55,6 +55,10 @@ func polyClass(name string, j int, p *prg) []fr.Element {
 		for i := range f {
 			f[i] = frFromBig(big.NewInt(int64(p.intn(1000))))
 		}
+	case "linear3":
+		for i := range f {
+			f[i] = frFromBig(big.NewInt(int64(3*i + 1)))
+		}
 	default:
 		for i := range f {
 			f[i] = p.fr()
